@@ -46,14 +46,15 @@ MacroProgs ==
 IdentProgs(n) == << Var(n), Bin("+", Var(n), Lit(I(1))), Macro("map", L(<<1, 2>>), n, Bin("+", Var(n), Lit(I(1)))), Macro("map", L(<<1, 2>>), "x", Var(n)),
                     Macro("exists", L(<<1>>), n, Bin("==", Var(n), Lit(I(1)))), Bin("+", Macro("map", L(<<1>>), n, Var(n)), ListE(<<Var(n)>>)),
                     Macro("map", L(<<1>>), n, Macro("map", L(<<10>>), "x", Bin("+", X, Var(n)))) >>
-IdentEnv(n, bound) == IF bound THEN << <<n, I(7)>> >> ELSE <<>>
+IdentEnv(n, bound) == CASE bound = "int" -> << <<n, I(7)>> >> [] bound = "null" -> << <<n, Null>> >> [] OTHER -> <<>>
+BoundKind(b) == IF b = <<>> THEN "no" ELSE IF b[1][2] = Null THEN "null" ELSE "int"
 OuterEnv == << <<"x", I(100)>>, <<"y", I(200)>> >>
 Init == bs = <<>> /\ pkg = <<>> /\ ref = <<>> /\ prog = Lit(Null) /\ exp = Null
 Next == \/ (MODE = "names" /\ ref = <<>> /\ \E r \in Root, u1 \in Under(<<nP>>, 40), u2 \in Under(<<nP, nQ>>, 50), pk \in Pkgs, rf \in Refs :
                /\ bs' = r \o u1 \o u2 /\ pkg' = pk /\ ref' = rf /\ UNCHANGED prog
                /\ exp' = Expected(bs', pk, rf))
         \/ (MODE = "macros" /\ prog = Lit(Null) /\ \E p \in MacroProgs : prog' = p /\ exp' = Eval(p, OuterEnv) /\ UNCHANGED <<bs, pkg, ref>>)
-        \/ (MODE = "idents" /\ prog = Lit(Null) /\ \E n \in HostileIdents \cup {"zz"}, bound \in BOOLEAN, j \in 1..Len(IdentProgs("zz")) :
+        \/ (MODE = "idents" /\ prog = Lit(Null) /\ \E n \in HostileIdents \cup {"zz"}, bound \in {"no", "int", "null"}, j \in 1..Len(IdentProgs("zz")) :
                /\ prog' = IdentProgs(n)[j] /\ bs' = IdentEnv(n, bound) /\ pkg' = j /\ UNCHANGED ref
                /\ exp' = Eval(prog', bs'))
 Spec == Init /\ [][Next]_vars
@@ -65,5 +66,5 @@ RootFallback == (ref # <<>> /\ exp # Indef /\ ~(\E k \in 1..Len(ref) : \E j \in 
 \* macro variables never leak: the outer x (100) / y (200) are what the expression sees after the macro
 NoLeak == (MODE = "macros" /\ prog.k = "bin" /\ prog.op = "+" /\ prog.r.k = "list" /\ exp.t = "list") => exp.v[Len(exp.v)] \in {I(100), I(200)}
 \* the spelling of an identifier is irrelevant: the outcome is the one the same program has with the identifier spelled "x"
-SpellingIrrelevant == (MODE = "idents" /\ prog # Lit(Null)) => exp = Eval(IdentProgs("zz")[pkg], IdentEnv("zz", bs # <<>>))
+SpellingIrrelevant == (MODE = "idents" /\ prog # Lit(Null)) => exp = Eval(IdentProgs("zz")[pkg], IdentEnv("zz", BoundKind(bs)))
 =============================================================================
